@@ -1,7 +1,7 @@
 import json,sys
 src=sys.argv[1]
 a=json.load(open(src)); p='/verif/known_findings.json'; b=json.load(open(p))
-ids={x['id'] for x in b['known']}
+ids={x['id'] for x in b['known']} | {l.strip() for l in open('/verif/tools_removed_findings.txt') if l.strip()}
 fixed_what=' '.join(f['what'] for f in b['fixed'])
 n=0
 for x in a['known']:
